@@ -243,6 +243,9 @@ def run_unordered_slices(stats, vs):
         ("slice_head(2, offset=1) >> alias() >> mutate(window) >> alias() >> filter",
          lambda t: t >> pdt.slice_head(2, offset=1) >> pdt.alias() >> pdt.mutate(r=pdt.row_number(arrange=C_.k)) >> pdt.alias() >> pdt.filter(C_.r > 1)),
         ("filter >> slice_head(1, offset=2) >> alias() >> arrange", lambda t: t >> pdt.filter(t.k > 0) >> pdt.slice_head(1, offset=2) >> pdt.alias() >> pdt.arrange(C_.k)),
+        # a subquery that has to rename one of two columns called k
+        ("arrange(k) >> mutate(k=k*2) >> slice_head(2) >> alias() >> filter", lambda t: t >> pdt.arrange(t.k) >> pdt.mutate(k=t.k * 2) >> pdt.slice_head(2) >> pdt.alias() >> pdt.filter(C_.k > 0)),
+        ("mutate(k=k+1) >> slice_head(2) >> alias(keep) >> filter(old k)", lambda t: t >> pdt.mutate(k=t.k + 1) >> pdt.slice_head(2) >> pdt.alias(keep_col_refs=True) >> pdt.filter(t.k > 0)),
     ]
     try:
         for label, f in progs:
@@ -257,6 +260,10 @@ def run_unordered_slices(stats, vs):
                             t2 >> pdt.export(pdt.Polars())
                         else:
                             check_compiled(t2 >> pdt.build_query(), b, f"mutate:{label}", vs)
+                        if b != "polars":
+                            q1, q2 = t2 >> pdt.build_query(), f(bl.tables["T"]) >> pdt.build_query()
+                            if q1 != q2:
+                                vs.append(mk("same-text-every-time", b, f"unordered:{label}", "second-call-differs", {"first": q1[:300], "second": q2[:300]}))
                     stats[f"{b}:implemented"] += 1
                     stats["traces_validated"] += 1
                 except Exception as e:  # noqa: BLE001
